@@ -109,7 +109,8 @@ impl RenetClient {
 //@entry
         let ghost s0 = *self;
         let ghost seq0 = self.packet_sequence as int;
-        proof { broadcast use glue_lemmas::lemma_same_but_one; lemma_all_sendable_empty(seq0); }
+        proof { broadcast use glue_lemmas::lemma_same_but_one; lemma_all_sendable_empty(seq0);
+            assert(records_written(s0.sent_packets@, s0.sent_packets@, Seq::<Packet>::empty(), seq0, 0, s0.current_time)) by { reveal(records_written); } }
 //@loop 1 iter=itO
             invariant
                 itO.seq().len() == s0.channel_send_order@.len(),
@@ -174,6 +175,7 @@ impl RenetClient {
 //@before /let sent_at = self\.current_time;/
         let ghost pk = packets@;
         let ghost s2 = *self;
+        proof { assert(records_written(s2.sent_packets@, s2.sent_packets@, pk, seq0, 0, s2.current_time)) by { reveal(records_written); } }
         proof { assert(pk.len() <= 0x1_0000_0000_0000 + 256 * 0x800_0000_0000 + 1); }
 //@loop 2 iter=itQ
             invariant
@@ -187,17 +189,21 @@ impl RenetClient {
                 assert(*packet == pk[itQ.index() as int]);
                 lemma_all_sendable_at(pk, seq0, itQ.index() as int);
                 assert(packet_seq(*packet) == seq0 + itQ.index());
+                reveal(records_written);
             }
 //@before /let last_range = ack_ranges\.last\(\)\.unwrap\(\);/
                     proof { lemma_ranges_wf_at(ack_ranges@, ack_ranges@.len() - 1); }
 //@before /let mut buffer = /
         let ghost s3 = *self;
+        let ghost rec_done = records_written(s0.sent_packets@, s3.sent_packets@, pk, seq0, pk.len() as int, s0.current_time);
+        proof { assert(rec_done); }
 //@loop 3 iter=itR
             invariant
                 itR.seq() == pk,
                 *self == (RenetClient { stats: self.stats, ..s3 }),
                 payload_lens_ok(serialized_packets@, pk, itR.index() as int),   // @C13 get_packets_to_send.each_payload_is_one_packet_of_at_most_1300_bytes
                 bytes_sent <= itR.index() * 1400,
+                rec_done,
                 pk.len() <= 0x10_0000_0000_0000,
 //@after /for packet in packets \{/
             proof {
@@ -210,6 +216,9 @@ impl RenetClient {
             assert(payload_lens_ok(serialized_packets@, pk, pk.len() as int));
             assert(all_sendable(pk, seq0));
             assert(packets_payload(pk) <= s0.available_bytes_per_tick);
+            assert(self.sent_packets@ == s3.sent_packets@);
+            assert(s2.sent_packets@ == s0.sent_packets@ && s2.current_time == s0.current_time);
+            assert(records_written(s0.sent_packets@, self.sent_packets@, pk, s0.packet_sequence as int, pk.len() as int, s0.current_time));
         }
 //@endfn
 }
